@@ -105,7 +105,7 @@ func c18decode(data []byte, rev int, res proto.Result) error {
 func TestC18Binding(t *testing.T) {
 	st := stats.G()
 	classes := []string{"identical", "permuted", "renamed", "extra-column", "missing-column", "blank-names", "type-swapped",
-		"fixedstring-size", "zero-rows-no-targets", "zero-rows-with-targets", "custom-serialization", "schema-change-sequence", "auto-targets-enforced", "autoresult-reinferred", "rows-without-columns", "names-differ-by-case"}
+		"fixedstring-size", "zero-rows-no-targets", "zero-rows-with-targets", "custom-serialization", "schema-change-sequence", "auto-targets-enforced", "autoresult-reinferred", "rows-without-columns", "names-differ-by-case", "single-result-column"}
 	rapid.Check(t, func(rt *rapid.T) {
 		class := rapid.SampledFrom(classes).Draw(rt, "class")
 		rev := rapid.SampledFrom(blockRevs).Draw(rt, "rev")
@@ -205,6 +205,30 @@ func TestC18Binding(t *testing.T) {
 			tc, res := mkTargets(false)
 			err := c18decode(encodeRefBlock(rev, blockCols(ren), -1), rev, res)
 			expectErr(tc, cols, nil, err, []string{ren[i].Name}, "one column renamed")
+		case "single-result-column":
+			// A ResultColumn used by itself as the Result ("single result" helper): with its name given it
+			// binds that column only; with a blank name the first block's name is taken and enforced
+			// afterwards, as for a list of targets.
+			k := cols[0].Kind
+			named := proto.ResultColumn{Name: "a", Data: k.New().Column()}
+			if err := c18decode(encodeRefBlock(rev, []ref.Column{{Name: "a", T: k.T, Rows: cols[0].Rows}}, -1), rev, named); err != nil {
+				rt.Fatalf("[%s] block a into the single target a: %v", class, err)
+			}
+			if err := c18decode(encodeRefBlock(rev, []ref.Column{{Name: "b", T: k.T, Rows: cols[0].Rows}}, -1), rev, named); err == nil || isPanic(err) {
+				rt.Fatalf("[%s] block with column b was bound to the single target named a (%v)", class, err)
+			}
+			blank := proto.ResultColumn{Data: k.New().Column()}
+			if err := c18decode(encodeRefBlock(rev, []ref.Column{{Name: "a", T: k.T, Rows: cols[0].Rows}}, -1), rev, blank); err != nil {
+				rt.Fatalf("[%s] first block into the single target with a blank name: %v", class, err)
+			}
+			second := gen.DrawRows(rt, k, rows)
+			if err := c18decode(encodeRefBlock(rev, []ref.Column{{Name: "b", T: k.T, Rows: second}}, -1), rev, blank); err == nil || isPanic(err) {
+				if err == nil && stats.IsKnown("C18", "single-resultcolumn-blank-name-not-enforced") {
+					st.Known("single-resultcolumn-blank-name-not-enforced", fmt.Sprintf("ResultColumn{Data: %s} as Result: first block names the column a, a second block with column b is bound to it", k.T.Name))
+				} else {
+					rt.Fatalf("[%s] a single ResultColumn with a blank name took the name a from the first block, yet a block with column b was bound to it (%v)", class, err)
+				}
+			}
 		case "names-differ-by-case":
 			// Column names are case-sensitive (SELECT x AS ID, y AS id is legal): two targets of one type
 			// whose names differ by case only. The block in target order binds; the same two columns in
